@@ -202,6 +202,12 @@ class C06(PropertyCheck):
         return None
 
     def replay_known(self, kf):
+        if kf["id"] == "KF-C06-randomkey-keyless":
+            # still there when some RANDOMKEY issued by the user who may read a* only names a key outside a*
+            c = gen_acl.kx_randomkey_witness()
+            im = run_impl([c], self.per_script_timeout()).get(c.id, [])
+            names = [l[3:] for l in im[-41:] if l.startswith("R $")]
+            return any(not _unhex(h).startswith("a") for h in names if h)
         if kf["id"] != "KF-C06-flush-keyless":
             return False
         hits = 0
@@ -233,7 +239,7 @@ class C06(PropertyCheck):
                 "the policy quantifies over the keys/channels the command's KeyExtractionFunc reports (Gen/KeyExtract.v ties the model's "
                 "extraction to the code's); that the reported keys cover the keys a handler touches is proved for every modelled handler "
                 "(C06_keys_cover, C06_gate_keys_cover); FLUSHDB / FLUSHALL (key-less, touch everything) are the recorded finding KF-C06-flush-keyless; "
-                "RANDOMKEY TOUCH OBJECTFREQ OBJECTIDLETIME ZRANDMEMBER have no model handler (read by inspection: they use the keys of their key function)",
+                "RANDOMKEY (key-less, its reply names a key of the database whatever the user may read) is the recorded finding KF-C06-randomkey-keyless",
                 "categories are those declared in the command table (Gen/CmdTable.v)",
                 "QUIT is answered with EOF before the gate (it closes the connection); it is not a registered command"]
 
